@@ -886,7 +886,8 @@ func isSymbolicControlChar(r rune) bool {
 }
 
 func isSingleQuotedCharacter(r rune) bool {
-	return isGraphicChar(r) || isAlphanumericChar(r) || isSoloChar(r) || r == ' ' || r == '"' || r == '`'
+	return isGraphicChar(r) || isAlphanumericChar(r) || isSoloChar(r) || r == ' ' || r == '"' || r == '`' ||
+		(r >= utf8.RuneSelf && unicode.IsPrint(r)) // Any other printable character of the character set, e.g. '¬'.
 }
 
 func isExponentChar(r rune) bool {
